@@ -1199,6 +1199,18 @@ pub fn cases(r: &mut Rng, thorough: bool, out: &mut Vec<Case>) {
             out.push(c);
         }
     }
+    // the minimum at every distinguished position: first, last, last lane of a vector, first element of the scalar tail, middle
+    let mut q = 0u64;
+    for &n in &simd_lens {
+        for &pos in &[0usize, n.saturating_sub(1), 7, 8, n / 2, (n / 8) * 8, ((n / 8) * 8).saturating_sub(1)] {
+            if pos >= n { continue; }
+            q += 1;
+            let mut c = Case::new("simd/min", &[(q % 4 != 0) as u64, [8u64, 1, 16, 0][(q % 4) as usize], q % 2, q % 3]);
+            c.xs = (0..n).map(|_| (1u64 << 31) + 10 + r.below(1000)).collect();
+            c.xs[pos] = if q % 3 == 0 { 0 } else { (1u64 << 31) + r.below(10) };
+            out.push(c);
+        }
+    }
     out.push(Case::big("simd/merge2", &[1, 8], &[0, 65_537, seed + 130, 32, 70_001, 7]));
     out.push(Case::big("simd/merge2", &[0, 8], &[7, 65_536, seed + 131, 32, 3, 0]));
     out.push(Case::big("simd/default", &[1], &[0, 3, seed + 132, 32, 65_539, 0]));
